@@ -107,6 +107,19 @@ func init() {
 	}, map[string]int{"LOC-branch": 5, "LOC-sep": 3, "LOC-search": 2, "LOC-testmain": 1, "LOC-consts": 1},
 		"Claimed narrowly: the structural clauses. Every match branch of Call.updateLocations pairs (root kind, separator, Location constant, local-path construction): the relative path is what follows the matched prefix, the local path ends with the relative path, the class is assigned only while still unknown (keeps the _testmain.go special case), and the no-match path writes nothing (LOC-branch); roots are matched only at a path-component boundary in updateLocations, hasPrefix and hasSrcPrefix (LOC-sep); the upward go.mod search covers every ancestor directory and the split search every split point (LOC-search); the directory constants agree between the sibling functions (LOC-consts); root arithmetic cannot go negative (BN-neg); roots are tried in a fixed order, nested ones first (MO). Not decided: which roots are found for a given disk layout (I/O-dependent search), i.e. that every frame whose file exists locally is mapped to it.",
 		"the file system answers isFile/ReadFile truthfully")
+	p("C17", []RuleSel{
+		{"HT", []string{"HT-*"}},
+		{"BN", []string{"BN-neg", "PN-panic", "PN-implicit"}},
+		{"EF", []string{"EF-tpl"}},
+	}, map[string]int{"HT-url": 3, "HT-html": 1, "HT-funcmap": 5, "HT-tpl": 3, "HT-complete": 3, "HT-gen": 1},
+		"HTML safety rests on a handful of typed-string conversions and on the contexts in which the template inserts data. HT-url: an abstract evaluation of the string expressions of html.go (constants, concatenation, constant-format Sprintf, QueryEscape, EscapedPath, phi = join, calls = join of returns, fixpoint) decides that every value a template function can return as trusted URL is empty, constant, begins with a fixed https://host/, file:/// or data: prefix, or is query-escaped; HT-html: trusted-markup conversions take only constants or HTMLEscapeString results; HT-funcmap: the FuncMap holds exactly the vetted producers and no escaper-changing name; HT-tpl: the shipped template is parsed and every action is located in its HTML context by a tokenizer over the text nodes: none inside script/style/on*/unquoted attributes, in href/src an action is the whole value or follows constant text fixing the scheme, html/urlquery/js are not used; HT-complete: the loops over calls, buckets and goroutines emit their row/heading unconditionally; HT-gen: the analysed constant is goroutines.tpl after the generator's whitespace rule; BN-neg/PN: the helper functions cannot panic on slice bounds (rendering succeeds).",
+		"html/template's contextual auto-escaping, including normalisation of template.URL values inside quoted attributes, is correct")
+	p("C16", []RuleSel{
+		{"NI", []string{"NI-*"}},
+		{"EF", []string{"EF-immut"}},
+	}, map[string]int{"NI-flow": 1, "NI-width": 3, "NI-split": 2, "NI-all": 2},
+		"Colour independence is a non-interference property: palette strings (loads of Palette fields and everything concatenated or formatted from them) may flow only into string concatenation, %s operands of constant formats, returns and writers — never into a comparison, len, index, conversion or a width operand; the one documented exception is the header handed to the filter/match expressions (NI-flow, taint analysis over package internal). NI-width: the widths computed by calcBucketsLengths/calcGoroutinesLengths are the lengths of exactly the two expressions callLine pads with %-*s. NI-split/NI-all: per element both console writers compute the header once, apply filter and match to that very string with opposite polarity, and write header then stack for every element not skipped. Not decided: the exact text of headers.",
+		"fmt pads by rune count of the uncoloured operands")
 	p("C07", []RuleSel{
 		{"SM", []string{"SM-ref", "SM-progress", "SM-looking-clean", "SM-done-remainder"}},
 		{"FL", []string{"FL-remainder", "FL-suffix-once", "FL-line-once", "FL-reader-fresh"}},
